@@ -258,8 +258,13 @@ func extractCodecWith(p *packages.Package, fd *ast.FuncDecl, writer bool, paramV
 				if ue, ok := rhs.(*ast.UnaryExpr); ok && ue.Op == token.AND {
 					rhs = ast.Unparen(ue.X)
 				}
-				if cl, ok := rhs.(*ast.CompositeLit); ok {
-					_ = cl
+				isNew := false
+				if ce, ok := rhs.(*ast.CallExpr); ok {
+					if fid, ok := ce.Fun.(*ast.Ident); ok && fid.Name == "new" && len(ce.Args) == 1 {
+						isNew = true // x := new(T)
+					}
+				}
+				if _, ok := rhs.(*ast.CompositeLit); ok || isNew {
 					if id, ok := as.Lhs[0].(*ast.Ident); ok {
 						if o := w.info.Defs[id]; o != nil {
 							if nt, ok := derefNamedStruct(o.Type()); ok && nt.Obj().Pkg() == p.Types {
@@ -677,6 +682,11 @@ func (w *codecWalker) block(stmts []ast.Stmt) []cop {
 				ops = append(ops, w.stmtOps(x.Init)...)
 			}
 			ops = append(ops, w.opsInExpr(x.Cond)...)
+			if isSuccessCheck(w.info, x.Cond) {
+				// `if err == nil { …grammar… } else { …error handling… }`
+				ops = append(ops, w.block(x.Body.List)...)
+				continue
+			}
 			if isErrCheck(w.info, x.Cond) {
 				// error handling: the body is not part of the grammar (but an else branch continues it)
 				if x.Else != nil {
@@ -812,7 +822,18 @@ func (w *codecWalker) block(stmts []ast.Stmt) []cop {
 			ops = append(ops, cop{Kind: "Loop", Body: body, Pos: x.Pos(), Bound: bound, Var: bvar})
 		case *ast.BlockStmt:
 			ops = append(ops, w.block(x.List)...)
-		case *ast.SwitchStmt, *ast.TypeSwitchStmt, *ast.SelectStmt:
+		case *ast.LabeledStmt:
+			ops = append(ops, w.block([]ast.Stmt{x.Stmt})...)
+		case *ast.SwitchStmt:
+			// an expression / tagless switch is an if-chain in another spelling
+			if chain := desugarSwitch(x); chain != nil {
+				ops = append(ops, w.block(chain)...)
+				continue
+			}
+			if containsIO(w.opsInExpr(s)) {
+				w.fn.Undecided = append(w.fn.Undecided, fmt.Sprintf("switch with stream operations at %s", w.pkg.Fset.Position(s.Pos())))
+			}
+		case *ast.TypeSwitchStmt, *ast.SelectStmt:
 			if containsIO(w.opsInExpr(s)) {
 				w.fn.Undecided = append(w.fn.Undecided, fmt.Sprintf("switch with stream operations at %s", w.pkg.Fset.Position(s.Pos())))
 			}
@@ -1141,4 +1162,91 @@ func (w *codecWalker) boolFlagAssignment(x *ast.IfStmt) bool {
 	}
 	w.locals[o] = e
 	return true
+}
+
+// isSuccessCheck: the condition is `err == nil` (possibly with further conjuncts): the body runs when the
+// preceding stream operation succeeded and belongs to the grammar.
+func isSuccessCheck(info *types.Info, cond ast.Expr) bool {
+	be, ok := ast.Unparen(cond).(*ast.BinaryExpr)
+	if !ok {
+		return false
+	}
+	if be.Op == token.LAND {
+		return isSuccessCheck(info, be.X) || isSuccessCheck(info, be.Y)
+	}
+	if be.Op != token.EQL {
+		return false
+	}
+	isErr := func(e ast.Expr) bool {
+		t := info.TypeOf(e)
+		return t != nil && t.String() == "error"
+	}
+	isNil := func(e ast.Expr) bool {
+		id, ok := ast.Unparen(e).(*ast.Ident)
+		return ok && id.Name == "nil"
+	}
+	return (isErr(be.X) && isNil(be.Y)) || (isErr(be.Y) && isNil(be.X))
+}
+
+// desugarSwitch turns `switch tag { case a, b: A; default: D }` / `switch { case c: A … }` into the equivalent
+// if / else-if chain (nil for fallthrough and other shapes it does not handle). A trailing unlabeled `break`
+// of a case body (which only ends the case) is dropped.
+func desugarSwitch(sw *ast.SwitchStmt) []ast.Stmt {
+	var clauses []*ast.CaseClause
+	var def *ast.CaseClause
+	for _, st := range sw.Body.List {
+		cc, ok := st.(*ast.CaseClause)
+		if !ok {
+			return nil
+		}
+		for _, b := range cc.Body {
+			if br, ok := b.(*ast.BranchStmt); ok && br.Tok == token.FALLTHROUGH {
+				return nil
+			}
+		}
+		if cc.List == nil {
+			def = cc
+		} else {
+			clauses = append(clauses, cc)
+		}
+	}
+	body := func(cc *ast.CaseClause) *ast.BlockStmt {
+		list := cc.Body
+		if n := len(list); n > 0 {
+			if br, ok := list[n-1].(*ast.BranchStmt); ok && br.Tok == token.BREAK && br.Label == nil {
+				list = list[:n-1]
+			}
+		}
+		return &ast.BlockStmt{Lbrace: cc.Colon, List: list, Rbrace: cc.End()}
+	}
+	cond := func(cc *ast.CaseClause) ast.Expr {
+		var c ast.Expr
+		for _, e := range cc.List {
+			var one ast.Expr = e
+			if sw.Tag != nil {
+				one = &ast.BinaryExpr{X: sw.Tag, OpPos: e.Pos(), Op: token.EQL, Y: e}
+			}
+			if c == nil {
+				c = one
+			} else {
+				c = &ast.BinaryExpr{X: c, OpPos: e.Pos(), Op: token.LOR, Y: one}
+			}
+		}
+		return c
+	}
+	var tail ast.Stmt
+	if def != nil {
+		tail = body(def)
+	}
+	for i := len(clauses) - 1; i >= 0; i-- {
+		tail = &ast.IfStmt{If: clauses[i].Pos(), Cond: cond(clauses[i]), Body: body(clauses[i]), Else: tail}
+	}
+	if tail == nil {
+		return nil
+	}
+	var out []ast.Stmt
+	if sw.Init != nil {
+		out = append(out, sw.Init)
+	}
+	return append(out, tail)
 }
